@@ -26,35 +26,46 @@ def run(R):
                          "get_group and the in-place sort of PERCENTILE values; nothing accumulates across refreshes")
     R.rule("C11.select", "the SELECT path of ExecutionEngine::execute does not read the execution config")
     R.rule("C11.output", "ExecutionOutput constructors carry the engine's result row unmodified")
-    # ---- compose
-    f = R.need_fn(AGGE + "execute")
-    loc_calls = [c for c in f.calls if (c.func.get("res_local") or c.func.get("local")) and not re.search(r"closure#", short(c.name))]
-    names = [short(c.name) for c in loc_calls]
-    up = [c for c in loc_calls if short(c.name) == AGGE + "execute_update"]
-    rs = [c for c in loc_calls if short(c.name) == AGGE + "execute_result"]
-    if len(up) == 1 and len(rs) == 1 and len(loc_calls) == 2:
-        # the bool result of execute_update guards execute_result
-        ok = False
-        for gsw, lab, tgt in F.guards_dominating(f, rs[0].bb):
-            info = F.switch_info(f, gsw)
-            if info and info[0] == "bool":
-                pos, os_ = F.bool_edge_polarity(f, gsw, lab)
-                vals = []
-                for o in os_:
-                    vals.append(o)
-                # provenance of the tested bool reaches execute_update's result (through Try::branch)
-                d = f.blocks[gsw]["term"]["discr"]
-                if pos and any(o.kind == "call" and o.call is up[0] for o in F.origins(f, d, depth=12)):
-                    ok = True
-        writes = [w for w in PR.self_writes(f) if not w[1].startswith("&mut self")]
-        if ok and not writes and f.dominates(up[0].bb, rs[0].bb):
-            R.ok("C11.compose", "execute", "execute_update()? then, if true, execute_result()", f.loc())
+    # ---- compose: every method of the aggregate engine that updates with a row and then renders the table does so exactly when the
+    #      row was accepted (execute_update returned true) - and on nothing else (no `only if something changed` engine flag)
+    composers = []
+    for g0 in P.fns.values():
+        if g0.target != "lib" or g0.kind == "Closure" or not (g0.raw.get("impl_self") or "").endswith("aggregate_execution::AggregateExecutionEngine"):
+            continue
+        g = PR.view(P, g0)
+        up = [c for c in g.calls if short(c.name) == AGGE + "execute_update"]
+        rs = [c for c in g.calls if short(c.name) == AGGE + "execute_result"]
+        if up and rs:
+            composers.append((g, up, rs))
+    if not composers:
+        R.violation("C11.compose", "execute|calls", "no method of AggregateExecutionEngine composes execute_update and execute_result", [R.need_fn(AGGE + "execute_update").loc()])
+    for g, up, rs in composers:
+        nm = g.spath.split("::")[-1]
+        fa = PR.facts(g)
+        problems = []
+        for r_ in rs:
+            accepted = any(call in up and val is True for call, val in fa.call_facts(r_.bb))
+            if not accepted:
+                problems.append("execute_result is not guarded by `execute_update(..) == true`")
+            for call, val in fa.call_facts(r_.bb):
+                if call in up or re.search(r"Try>::branch$|from_residual$", short(call.name)):
+                    continue
+                if any(o.kind == "arg" and o.arg == 1 for a_ in call.args for o in F.origins(g, a_, depth=8)):
+                    problems.append("the refresh also depends on %s(self..) == %s" % (short(call.name).split("::")[-1], val))
+            for flds, root, val in fa.place_facts(r_.bb):
+                if root == 1 and flds:
+                    problems.append("the refresh also depends on the engine field %s == %s" % (".".join(flds), val))
+        writes = [w for w in PR.self_writes(g) if not w[1].startswith("&mut self")]
+        if writes:
+            problems.append("the composer writes engine state itself (%s)" % writes[0][1])
+        if not all(g.dominates(u.bb, r_.bb) for u in up[:1] for r_ in rs):
+            problems.append("execute_result can run before execute_update")
+        if problems:
+            R.violation("C11.compose", nm + "|" + ("order" if "before" in problems[0] or "not guarded" in problems[0] else "extra-condition"),
+                        "%s: %s - the table shown after k lines would differ from a batch run over the first k lines (a refresh is skipped "
+                        "or forced on a condition other than `the row was accepted`)" % (g.path, "; ".join(sorted(set(problems)))), [rs[0].loc()])
         else:
-            R.violation("C11.compose", "execute|order", "AggregateExecutionEngine::execute no longer runs execute_result exactly when "
-                                                         "execute_update returned true", [f.loc()])
-    else:
-        R.violation("C11.compose", "execute|calls", "AggregateExecutionEngine::execute calls %s (expected execute_update, execute_result only)"
-                    % names, [f.loc()])
+            R.ok("C11.compose", nm, "execute_update()? then, exactly if it returned true, execute_result()", g.loc())
     # ---- arm table
     ef = R.need_fn(ENG + "execute")
     want = {"execute_aggregate": {"update": True, "result": True}, "execute_aggregate_update": {"update": True, "result": False},
